@@ -75,3 +75,4 @@ Definition opt_tz_truth (t : option gtz) : bool := match t with None => false | 
 Definition opt_td_truth (t : option Z) : bool := match t with None => false | Some o => negb (o =? 0) end.
 Definition gtz_is (a b : gtz) : bool := gz_id a =? gz_id b.
 Definition gz_utcoffset_us (tz : gtz) : Z := MEG * gz_off tz.     (* FixedTimezone._utcoffset = timedelta(seconds=offset) *)
+Definition opt_tz_or (a b : option gtz) : option gtz := match a with Some _ => a | None => b end.   (* `a or b` on None / timezone objects *)
